@@ -434,7 +434,7 @@ pub fn enum_complete_depth(n: u64) -> u32 {
     d
 }
 
-fn enum_letter(letter: u64, cfg: &WorldCfg) -> Op {
+fn enum_letter(letter: u64, cfg: &WorldCfg, pos: usize) -> Op {
     let data = |rel: i64, confirmed: bool, ack: bool| {
         let mut d = DataSpec::plain(rel);
         d.confirmed = confirmed;
@@ -499,7 +499,8 @@ fn enum_letter(letter: u64, cfg: &WorldCfg) -> Op {
         }
         11 => {
             // settings equal to the regional defaults (the MAC configuration is not part of a persisted session)
-            let ja = JaSpec { join_nonce: 0x01_0203, net_id: 0x13, devaddr: 0x2601_1234, dl_settings: rr::rx2_default(cfg.region).1, rx_delay: 1, cflist: None, tamper: Tamper::None };
+            // (the JoinNonce differs from join to join, as a join server's does)
+            let ja = JaSpec { join_nonce: 0x01_0203 + pos as u32, net_id: 0x13, devaddr: 0x2601_1234, dl_settings: rr::rx2_default(cfg.region).1, rx_delay: 1, cflist: None, tamper: Tamper::None };
             t.rx1.push(FrameSpec::JoinAccept(ja));
             Op::Join(t)
         }
@@ -543,10 +544,11 @@ pub fn enum_case(index: u64, max_depth: u32) -> Option<MacCase> {
     let mut ops = Vec::new();
     if cfg.otaa {
         // an OTAA device starts its life with a join; the enumerated history follows
-        ops.push(enum_letter(11, &cfg));
+        ops.push(enum_letter(11, &cfg, 0));
     }
     for _ in 0..depth {
-        ops.push(enum_letter(seq % ENUM_LETTERS, &cfg));
+        let pos = ops.len() + 1;
+        ops.push(enum_letter(seq % ENUM_LETTERS, &cfg, pos));
         seq /= ENUM_LETTERS;
     }
     Some(MacCase { cfg, ops, knob: 0 })
